@@ -662,7 +662,8 @@ def replay(shard, rp):
 
 TECHNIQUE = 'online invariant after every real simulator step + tagged-bank paging histories decided by a sequential 0x7FFD model, also under ASan/UBSan'
 LEVEL_TEXT = ('Each real simulator (Python/C, plain/contended) is stepped with an invariant monitor (register ranges, T monotonic, ROM unchanged, byte-valued stores, '
-              'Memory-object mapping identities); every opcode slot is executed with every pointer aimed at the ROM/RAM boundary; all 65536 port-0x7FFD histories of '
+              'Memory-object mapping identities); every opcode slot is executed with every pointer aimed at the ROM/RAM boundary and from the top of memory, interrupts are accepted (API and run()) with SP on the boundary, '
+              'the fast_ldir shortcut copies through it; all 65536 port-0x7FFD histories of '
               'length<=2 and random longer ones on matching/non-matching ports are driven through real OUT instructions against bank tags, ROM probes and unique-id stores, '
               'decided by a small sequential paging model; the C paths repeat under clang ASan+UBSan so that an out-of-range address is an observed out-of-bounds access.')
 LEVEL_NOTE = 'Histories longer than 2 are sampled; programs are bounded (200 steps); a clean sanitizer run is not memory safety beyond the paths reached.'
